@@ -260,6 +260,8 @@ def _uncovered_recursive_calls(ctx, f: Func, calls) -> list:
                         covered = True
             if isinstance(p, (ast.If, ast.While)) and tests_inline and is_guard_stmt(ast.Expr(value=p.test)):
                 covered = True
+            if isinstance(p, ast.With) and any(child is x for x in p.body) and any(is_guard_stmt(ast.Expr(value=it.context_expr)) for it in p.items):
+                covered = True  # the guard is a context manager entered around the recursive call
             if p is f.node:
                 break
             child, p = p, getattr(p, "_parent", None)
